@@ -40,14 +40,7 @@ import (
 
 func init() {
 	register("c15_fieldtype", c15ExtractFieldType)
-	registerFallback("c15_fieldtype", "C15FieldType.v", "(* Gen/C15FieldType.v — translator tie UNAVAILABLE: tools/go2v (extractor \"c15_fieldtype\") did not recognise the\n"+
-		"   shape of compose/field_mapping.go:extractFieldType; the model's own function is re-exported. *)\n"+
-		"From Eino Require Import Base.Util Base.FMUniverse Model.FieldMap Model.FieldMapGenLib.\n\n"+
-		"Definition tie_available : bool := false.\n"+
-		"Definition extract_field_type (env : senv) (paths : path) (typ : ty) (target : bool) : option sres :=\n"+
-		"  Some (extract_ty env typ paths).\n"+
-		"Definition check_and_extract_field_type (env : senv) (paths : path) (typ : ty) : option sres :=\n"+
-		"  Some (extract_ty env typ paths).\n")
+	registerFallback("c15_fieldtype", "C15FieldType.v", c15RefFieldType)
 }
 
 type c15ftTr struct {
